@@ -14,6 +14,17 @@ Require Import List Arith Bool Lia.
 Require Import Raft.Quorum Raft.RaftModel Raft.RaftSys Raft.RaftLog Raft.RaftStepProps Raft.RaftCC.
 Import ListNotations.
 
+Lemma learner_ack_props : forall c ev n1, let n' := learner_ack c ev n1 in
+  n_term n' = n_term n1 /\ n_vote n' = n_vote n1 /\ n_log n' = n_log n1 /\ n_role n' = n_role n1 /\
+  n_commit n1 <= n_commit n'.
+Proof.
+  intros c ev n1. unfold learner_ack. destruct ev as [|p|m| |]; try (cbn; repeat split; auto; fail).
+  destruct (msg_is_appresp m && negb (m_reject m) && negb (member c (m_from m)) && role_eqb (n_role n1) Leader && (m_term m =? n_term n1));
+    [|cbn; repeat split; auto].
+  destruct (leader_ack_props (c_in c) (c_out c) (m_from m) (m_index m) n1) as (A & B & C & D & E & _). cbn zeta in *.
+  repeat split; assumption.
+Qed.
+
 (* pendingConfIndex discipline of one node; log index = S (list position) *)
 Definition PD (n : nstate) (pend : nat) : Prop :=
   n_role n = Leader ->
@@ -211,12 +222,12 @@ Section NodeInv.
       assert (Hnp : no_pending n1).
       { intros j e Hj Hc. destruct (Nat.lt_ge_cases j (n_commit n1)) as [Hlt|Hge]; [exact Hlt|].
         pose proof (H1 Hlead j e Hj Hc Hge). lia. }
-      destruct (role_eqb (n_role n2) Leader && member cc1 id).
+      destruct (role_eqb (n_role n2) Leader && tracked cc1 id).
       + destruct (leader_ack_props (c_in cc1) (c_out cc1) id (length (n_log n)) n2) as (A' & B' & C' & D' & E' & _). cbn zeta in *.
         split; [|intros _; exact Hnp].
         apply (PD_weaken n2); [exact H2|exact C'|congruence|exact E'].
       + split; [exact H2|intros _; exact Hnp].
-    - destruct (role_eqb (n_role n1) Leader && member cc1 id).
+    - destruct (role_eqb (n_role n1) Leader && tracked cc1 id).
       + destruct (leader_ack_props (c_in cc1) (c_out cc1) id (length (n_log n)) n1) as (A' & B' & C' & D' & E' & _). cbn zeta in *.
         split; [apply (PD_weaken n1); [exact H1|exact C'|congruence|exact E']|].
         intros Hlen. rewrite C', A in Hlen. lia.
@@ -241,7 +252,7 @@ Section NodeInv.
     intros c ev n pend H. unfold handle_cc.
     destruct ev as [|p|m| |].
     2:{ destruct (n_role n) eqn:Er; try exact H.
-        destruct (negb (member c id)); [exact H|].
+        destruct (negb (tracked c id)); [exact H|].
         destruct (cc_of_payload p) as [op|] eqn:Ep.
         - destruct ((n_commit n <? pend) || (joint c && negb match op with CcLeave => true | _ => false end)
                     || (negb (joint c) && match op with CcLeave => true | _ => false end)).
@@ -254,6 +265,9 @@ Section NodeInv.
            pose proof (handle_good a b i ev nn) as ((G1 & _ & G3) & _);
            set (n1 := fst (handle a b i ev nn)) in * end.
     all: cbn [fst snd].
+    all: match goal with |- PD (learner_ack ?cc ?ev ?nn) ?pp =>
+           destruct (learner_ack_props cc ev nn) as (_ & _ & LA & LR & LC); cbn zeta in LA, LR, LC;
+           apply (PD_weaken nn _ pp); [|exact LA|intros HH; rewrite <- LR; exact HH|exact LC] end.
     all: destruct (n_role n1) eqn:Er1; try (apply PD_not_leader; congruence).
     all: destruct (HL Er1) as [(X1 & X2 & X3)|([X1|X1] & L & t & X3)].
     all: try (rewrite X1, X2; cbn [role_eqb andb]; rewrite Nat.eqb_refl; apply (PD_weaken n); [exact H|exact X3|intros _; exact X1|exact G3]).
@@ -269,7 +283,7 @@ Section NodeInv.
     no_pending n.
   Proof.
     intros c p n pend H Hl Hp Hlog. unfold handle_cc in Hlog. rewrite Hl in Hlog.
-    destruct (negb (member c id)).
+    destruct (negb (tracked c id)).
     { cbn in Hlog. exfalso. apply (f_equal (@length _)) in Hlog. rewrite app_length in Hlog. cbn in Hlog. lia. }
     unfold isconf in Hp. destruct (cc_of_payload p) as [op|] eqn:Ep; [|discriminate].
     destruct ((n_commit n <? pend) || (joint c && negb match op with CcLeave => true | _ => false end)
@@ -285,7 +299,7 @@ Section NodeInv.
     PD n pend -> PD (fst (fst (exec_cc boot page1 id ev (n, pend)))) (snd (fst (exec_cc boot page1 id ev (n, pend)))).
   Proof.
     intros ev n pend H. unfold exec_cc.
-    destruct (match ev with EvRecv m => is_response (m_type m) && negb (member (node_cfg boot n) (m_from m)) | _ => false end);
+    destruct (match ev with EvRecv m => is_response (m_type m) && negb (tracked (node_cfg boot n) (m_from m)) | _ => false end);
       [cbn; exact H|].
     pose proof (handle_cc_PD (node_cfg boot n) ev n pend H) as H1.
     destruct (handle_cc id (node_cfg boot n) ev n pend) as [[n1 out] pend1].
